@@ -846,7 +846,7 @@ func replayFile(t *testing.T, path string) {
 			vals = append(vals, s.ToObject())
 		}
 		checkSequence(t, test, vals)
-	case "TestDecodeBytes", "TestDecodeBytesScript", "FuzzJSONDecode":
+	case "TestDecodeBytes", "TestDecodeBytesScript", "FuzzJSONDecode", "TestNestingBoundary":
 		var p decPayload
 		if _, err := ev.LoadReplay(path, &p); err != nil {
 			t.Fatalf("load %s: %v", path, err)
